@@ -7,16 +7,23 @@
  * assert    : failed open => handle all-zero, close callback NOT invoked, nothing leaked; successful open => documented
  *             state; ov_clear closes exactly once and zeroes the handle; a second ov_clear is a no-op.
  */
+#define ogg_sync_wrote env_sw_unused
 #include "vf_env.h"
+#undef ogg_sync_wrote
+static long g_wrote=-1; static int g_wrote_calls=0;
+int ogg_sync_wrote(ogg_sync_state *oy,long bytes){ g_wrote=bytes; g_wrote_calls++; return 0; }
 #include "vorbisfile.c"
-static int hdr_calls=0;
+static int hdr_calls=0; static ogg_int64_t g_hdr_end=-1; static long g_hdr_serial; static int g_hdr_n;
 static int _fetch_headers(OggVorbis_File *vf,vorbis_info *vi,vorbis_comment *vc,long **serialno_list,int *serialno_n,ogg_page *og_ptr){
   hdr_calls++;
+  /* vf->offset counts stream bytes CONSUMED as pages; bytes the application read ahead (initial/ibytes) sit in the sync buffer and
+     are not consumed yet: every page offset recorded during open is relative to this zero */
+  CHECK(vf->offset==0,"no stream byte is accounted as consumed before the first page is fetched (pre-read bytes stay in the sync buffer)");
   int r=ND_int();
   if(r){ ASSUME(r==OV_EREAD||r==OV_ENOTVORBIS||r==OV_EBADHEADER||r==OV_EVERSION||r==OV_EFAULT); return r; }
   vorbis_info_init(vi); vorbis_comment_init(vc); vi->rate=44100; vi->channels=ND_irange(1,255); vc->vendor=malloc(1);
   int n=ND_irange(1,2);   /* success implies at least the Vorbis BOS page's serial number was recorded */ if(serialno_list){ *serialno_list=n?malloc(n*sizeof(long)):0; for(int i=0;i<n;i++)(*serialno_list)[i]=ND_long(); *serialno_n=n; }
-  vf->os.serialno=ND_int(); vf->offset=ND_range(0,1L<<30); vf->ready_state=STREAMSET;
+  vf->os.serialno=ND_int(); vf->offset=ND_range(0,1L<<30); vf->ready_state=STREAMSET; g_hdr_end=vf->offset; g_hdr_serial=vf->os.serialno; g_hdr_n=n;
   return 0; }
 static int _open_seekable2(OggVorbis_File *vf){
   CHECK(vf->seekable && vf->ready_state==OPENED && vf->links==1 && vf->serialnos && vf->offsets && vf->dataoffsets,"precondition of _open_seekable2");
@@ -26,9 +33,12 @@ static int all_zero(const OggVorbis_File *vf){ return vf->datasource==0 && vf->s
 void harness(void){
   OggVorbis_File vf; int ds=1; int seekable=ND_BOOL(); int twostage=ND_BOOL();
   ov_callbacks cb= seekable? env_cb : env_cb_noseek;
-  int r;
-  if(twostage){ r=ov_test_callbacks(&ds,&vf,0,0,cb); if(r==0){ CHECK(vf.ready_state==PARTOPEN && env_closes==0,"partial open"); r=ov_test_open(&vf); } }
-  else r=ov_open_callbacks(&ds,&vf,0,0,cb);
+  int r; static char initial[4]; long ib=ND_range(0,4); int use_initial=ND_BOOL(); for(int i=0;i<4;i++) initial[i]=(char)ND_uchar();
+  const char *ini=0; if(use_initial) ini=&initial[0]; if(!use_initial) ib=0;
+  if(twostage){ r=ov_test_callbacks(&ds,&vf,ini,ib,cb); if(r==0){ CHECK(vf.ready_state==PARTOPEN && env_closes==0,"partial open"); r=ov_test_open(&vf); } }
+  else r=ov_open_callbacks(&ds,&vf,ini,ib,cb);
+  if(use_initial){ CHECK(g_wrote_calls==1 && g_wrote==ib,"pre-read bytes are handed to the sync layer once, with their exact count"); if(ib>0) WITNESS_AT("opened with pre-read bytes"); }
+  else CHECK(g_wrote_calls==0,"nothing submitted to the sync layer without pre-read bytes");
   if(r){
     CHECK(r<0,"failed open returns a negative code");
     CHECK(env_closes==0,"failed open does not close the data source");
@@ -39,6 +49,8 @@ void harness(void){
     CHECK(env_closes==0,"successful open does not close the data source");
     CHECK(vf.datasource==&ds && vf.links==1 && vf.vi && vf.vc,"open: one link described");
     CHECK(vf.ready_state==(vf.seekable?OPENED:STREAMSET),"open: ready state");
+    CHECK(vf.offsets[0]==0 && vf.dataoffsets[0]==g_hdr_end,"first link starts at stream offset 0; its audio starts where the header fetch stopped");
+    CHECK(vf.serialnos[0]==g_hdr_serial && vf.current_serialno==g_hdr_serial,"first link's serial number = the Vorbis stream found by the header fetch");
     WITNESS_AT("open succeeded");
     ov_clear(&vf);
     CHECK(env_closes==1,"ov_clear closes the data source exactly once");
